@@ -24,10 +24,10 @@ import (
 // ---- flag sets ---------------------------------------------------------------
 
 const (
-	fR = int(callflag.ReadStates)
-	fW = int(callflag.WriteStates)
-	fC = int(callflag.AllowCall)
-	fN = int(callflag.AllowNotify)
+	fR   = int(callflag.ReadStates)
+	fW   = int(callflag.WriteStates)
+	fC   = int(callflag.AllowCall)
+	fN   = int(callflag.AllowNotify)
 	fAll = int(callflag.All)
 )
 
